@@ -32,13 +32,22 @@ type c14Prog struct {
 	hs   []*c14H
 	want map[int][]byte // READ request index -> expected DATA payload
 	hOf  map[int]int    // request index -> handle number
+	// putfail: WRITE requests (by request index) that the backend refuses: the offset lies beyond what the store accepts
+	failing map[int]bool
+	failReq map[*pgReq]bool
 }
 
 const c14Pre = 65536 // rw files: [0,c14Pre) pre-populated and only read; writes land at c14Pre and above
 
 // c14Build: INIT, the OPENs, then the interleaved (READ|WRITE)^k CLOSE sequences.
 func c14Build(rng *rand.Rand, nh, kmax int, big, openPipelined bool, maxTx uint32) *c14Prog {
-	p := &c14Prog{want: map[int][]byte{}, hOf: map[int]int{}}
+	return c14BuildF(rng, nh, kmax, big, openPipelined, maxTx, false)
+}
+
+// putFail: read and write-only handles only (the handlers have no OpenFile); on every write handle with at least two
+// transfers one or two of the WRITEs carry an offset the backend refuses.
+func c14BuildF(rng *rand.Rand, nh, kmax int, big, openPipelined bool, maxTx uint32, putFail bool) *c14Prog {
+	p := &c14Prog{want: map[int][]byte{}, hOf: map[int]int{}, failing: map[int]bool{}, failReq: map[*pgReq]bool{}}
 	ids := map[uint32]bool{}
 	id := func() uint32 {
 		for {
@@ -52,6 +61,9 @@ func c14Build(rng *rand.Rand, nh, kmax int, big, openPipelined bool, maxTx uint3
 	p.reqs = append(p.reqs, &pgReq{op: "INIT", typ: fxpInit, frame: rawInit(), cls: pgClsCmdFree, slot: -1})
 	for i := 0; i < nh; i++ {
 		h := &c14H{mode: []string{"r", "w", "rw", "w", "r"}[rng.Intn(5)]}
+		if putFail {
+			h.mode = []string{"w", "w", "r"}[rng.Intn(3)]
+		}
 		pflags := uint32(1)
 		switch h.mode {
 		case "r":
@@ -77,8 +89,18 @@ func c14Build(rng *rand.Rand, nh, kmax int, big, openPipelined bool, maxTx uint3
 	queues := make([][]*pgReq, nh)
 	for i, h := range p.hs {
 		k := 1 + rng.Intn(kmax)
+		if putFail && k < 2 {
+			k = 2
+		}
 		h.nRW = k
 		hs := fmt.Sprint(i + 1)
+		failAt := map[int]bool{}
+		if putFail && h.mode == "w" {
+			failAt[rng.Intn(k)] = true
+			if k > 3 && rng.Intn(2) == 0 {
+				failAt[rng.Intn(k)] = true
+			}
+		}
 		for j := 0; j < k; j++ {
 			read := h.mode == "r" || (h.mode == "rw" && rng.Intn(2) == 0)
 			rq := &pgReq{id: id(), cls: pgClsRWGated, slot: i}
@@ -117,14 +139,22 @@ func c14Build(rng *rand.Rand, nh, kmax int, big, openPipelined bool, maxTx uint3
 				if h.mode == "rw" {
 					off += c14Pre
 				}
+				if failAt[j] {
+					off += pgMaxFile // the store refuses it (inside WriteAt, after the gate)
+				}
 				rq.op, rq.typ, rq.off = "WRITE", fxpWrite, uint64(off)
 				rq.data = pgPatBytes(h.fileNo, int64(off), n)
 				rq.frame = rawWrite(rq.id, hs, uint64(off), rq.data)
 				rq.gkey = fmt.Sprintf("write:/%s@%d+%d", h.wire, off, n)
-				if need := off + n; need > len(h.model) {
+				if failAt[j] {
+					rq.op = "WRITE(refused)"
+					p.failReq[rq] = true
+				} else if need := off + n; need > len(h.model) {
 					h.model = append(h.model, make([]byte, need-len(h.model))...)
 				}
-				copy(h.model[off:], rq.data)
+				if !failAt[j] {
+					copy(h.model[off:], rq.data)
+				}
 			}
 			queues[i] = append(queues[i], rq)
 		}
@@ -157,6 +187,9 @@ func c14Build(rng *rand.Rand, nh, kmax int, big, openPipelined bool, maxTx uint3
 		first = false
 		p.reqs = append(p.reqs, rq)
 		p.hOf[len(p.reqs)-1] = i
+		if p.failReq[rq] {
+			p.failing[len(p.reqs)-1] = true
+		}
 		if rq.typ == fxpRead {
 			p.want[len(p.reqs)-1] = rq.data
 		}
@@ -205,6 +238,12 @@ func c14Check(p *c14Prog, resps []*rawResp, tolerate bool, overtaken *int) (bool
 				*overtaken++
 				continue
 			}
+			if p.failing[i] {
+				if code, ok := rs.statusCode(); !ok || code == 0 {
+					return false, fmt.Sprintf("refused-write-acknowledged: the backend refused a WRITE on handle %d, the client was told STATUS %d", h, code)
+				}
+				continue
+			}
 			if code, ok := rs.statusCode(); !ok || code != 0 {
 				return false, fmt.Sprintf("io-before-close-failed: WRITE on handle %d (sent before its CLOSE) answered STATUS %d", h, code)
 			}
@@ -249,13 +288,29 @@ func runC14(c *Ctx) {
 		if openPipe {
 			kind = "openpipe"
 		}
-		// request server, gated
-		for _, alloc := range []bool{false, true} {
+		// request server, gated; every third program once more with handlers that have no OpenFile and a backend that refuses
+		// some of the pipelined WRITEs (kind putfail): the refused WRITE is answered with a failure, every other transfer
+		// succeeds, and the writer object is closed once, by the CLOSE, after all of them
+		type rsVariant struct {
+			alloc, putFail bool
+		}
+		variants := []rsVariant{{false, false}, {true, false}}
+		if pi%3 == 0 && !openPipe {
+			variants = append(variants, rsVariant{pi%2 == 0, true})
+		}
+		for _, vr := range variants {
+			alloc := vr.alloc
 			for si := 0; si < scheds; si++ {
-				p := c14Build(rand.New(rand.NewSource(seed)), nh, kmax, false, openPipe, 0)
+				p := c14BuildF(rand.New(rand.NewSource(seed)), nh, kmax, false, openPipe, 0, vr.putFail)
+				kind := kind
+				if vr.putFail {
+					kind = "putfail"
+					c.Stat("cases_rs_putfail")
+				}
 				hub := newPgHub()
 				g := newPgGate(false, hub)
 				st := newPgStore(g)
+				st.putOnly = vr.putFail
 				c14PrepStore(st, p)
 				in, err := pgStart(pgInstOpt{reqServer: true, alloc: alloc, store: st, hub: hub})
 				if err != nil {
